@@ -314,3 +314,42 @@ package gtab
 //@     invariant parser.inv(p) && 0 <= i && i <= featureLookupCount && (isnil(lookupListIndices) || fresh(lookupListIndices)) && faults(p.r) <= old(faults(p.r))
 //@     invariant forall k int :: 0 <= k && k < len(info) ==> info[k] != nil
 //@     decreases featureLookupCount - i
+
+// Script list readers: total on arbitrary bytes, reader faults returned.
+//@ func readLangSysTable(p *parser.Parser, pos int64) (ff *Features, err error)   props: C02 C08 C18
+//@   requires parser.inv(p) && pos >= 0
+//@   ensures faults(p.r) > old(faults(p.r)) ==> err != nil
+//@   ensures err == nil ==> ff != nil && parser.inv(p)
+//@   ensures p.r == old(p.r)
+//@   modifies p.*, allelems(byte), rpos(p.r), faults(p.r)
+//@   loop 0
+//@     invariant parser.inv(p) && 0 <= i && i <= featureIndexCount && len(featureIndices) == featureIndexCount && fresh(featureIndices) && faults(p.r) <= old(faults(p.r)) && p.r == old(p.r)
+//@     decreases featureIndexCount - i
+
+//@ assume func otfToBCP47(script otfScript, lang otfLang) (tag language.Tag, err error)
+//@   modifies nothing
+
+//@ func (info ScriptListInfo) readScriptTable(script otfScript, p *parser.Parser, pos int64) (err error)   props: C02 C08 C18
+//@   requires info != nil && parser.inv(p) && pos >= 0 && pos <= 4611686018427387904
+//@   ensures faults(p.r) > old(faults(p.r)) ==> err != nil
+//@   ensures err == nil ==> parser.inv(p)
+//@   ensures p.r == old(p.r)
+//@   modifies p.*, allelems(byte), rpos(p.r), faults(p.r), info[*]
+//@   loop 0
+//@     invariant parser.inv(p) && 0 <= i && i <= langSysCount && (isnil(records) || fresh(records)) && faults(p.r) <= old(faults(p.r)) && p.r == old(p.r) && pos >= 0 && pos <= 4611686018427387904
+//@     decreases langSysCount - i
+//@   loop 1
+//@     invariant parser.inv(p) && (isnil(records) || fresh(records)) && faults(p.r) <= old(faults(p.r)) && p.r == old(p.r) && pos >= 0 && pos <= 4611686018427387904 && info != nil
+
+//@ func readScriptList(p *parser.Parser, pos int64) (info ScriptListInfo, err error)   props: C02 C08 C18
+//@   requires parser.inv(p) && pos >= 0 && pos <= 2305843009213693952
+//@   ensures faults(p.r) > old(faults(p.r)) ==> err != nil
+//@   ensures err == nil ==> info != nil && parser.inv(p)
+//@   ensures p.r == old(p.r)
+//@   loop 0
+//@     invariant parser.inv(p) && 0 <= i && i <= scriptCount && (isnil(entries) || fresh(entries)) && faults(p.r) <= old(faults(p.r)) && p.r == old(p.r)
+//@     decreases scriptCount - i
+//@   loop 1
+//@     invariant parser.inv(p) && faults(p.r) <= old(faults(p.r)) && p.r == old(p.r)
+//@   loop 2
+//@     invariant parser.inv(p) && (isnil(entries) || fresh(entries)) && faults(p.r) <= old(faults(p.r)) && p.r == old(p.r) && info != nil && fresh(info)
